@@ -19,7 +19,7 @@ import (
 func init() {
 	register(&Prop{
 		ID: "C15", Level: "fault_enumeration",
-		Rule: "one case = a router with CustomRecoveryWithLogHandler(capturing handler, DefaultHandleRecovery) over all handler kinds, generated routes, request headers carrying unique secret tokens under credential-bearing names in canonical, lower-case and mixed capitalisation (drawn; some with two values or under two capitalisations at once) next to ordinary headers, and a generated Updates/View program; for that configuration ALL combinations are enumerated of panic value (string, error, wrapped error, nil, custom type, http.ErrAbortHandler bare and wrapped, net.OpError with broken pipe / connection reset / other errno, directly or one wrapping layer down) x response progress at the time of the panic (nothing, header only, partial body, after a failed write) x panic site (route handler, route-specific middleware, no-route, no-method and options handlers), a panic after every prefix of the Updates/View program run inside a handler, and a panic raised by a middleware constructor while Router.Handle/Update build a route inside a handler (user code running under the writer lock). Oracle: ServeHTTP returns normally (ErrAbortHandler re-raised as the identical value); the simulated connection shows 500 iff nothing had been written and the value is not a broken-connection error, nothing at all for broken connections, an untouched partial response otherwise; exactly one diagnostic record naming route (or scope), parameters and request line and containing none of the secret values; afterwards the routes are unchanged, a follow-up request is served and a write issued under the scheduler completes (writer lock released, else deadlock). Non-trivial: every run (all combinations are executed); distinct = hash of (configuration, header capitalisation, program).",
+		Rule: "one case = a router with CustomRecoveryWithLogHandler(capturing handler, DefaultHandleRecovery) over all handler kinds, generated routes, request headers carrying unique secret tokens under credential-bearing names in canonical, lower-case and mixed capitalisation (drawn; some with two values or under two capitalisations at once) next to ordinary headers, and a generated Updates/View program; for that configuration ALL combinations are enumerated of panic value (string, error, wrapped error, nil, custom type, http.ErrAbortHandler bare and wrapped, net.OpError with broken pipe / connection reset / other errno, directly or one wrapping layer down) x response progress at the time of the panic (nothing, header only, partial body, after a failed write) x panic site (route handler, route-specific middleware, route handler reached through an ignored trailing slash, no-route, no-method and options handlers), a panic after every prefix of the Updates/View program run inside a handler, and a panic raised by a middleware constructor while Router.Handle/Update build a route inside a handler (user code running under the writer lock). Oracle: ServeHTTP returns normally (ErrAbortHandler re-raised as the identical value); the simulated connection shows 500 iff nothing had been written and the value is not a broken-connection error, nothing at all for broken connections, an untouched partial response otherwise; exactly one diagnostic record naming route (or scope), parameters and request line and containing none of the secret values; afterwards the routes are unchanged, a follow-up request is served and a write issued under the scheduler completes (writer lock released, else deadlock). Non-trivial: every run (all combinations are executed); distinct = hash of (configuration, header capitalisation, program).",
 		Run:  runC15, Quick: 4000, Thorough: 480000,
 		Real: []string{"Recovery middleware (recovery.go)", "Router.Updates/View abort paths", "recorder ResponseWriter", "ServeHTTP dispatch"},
 		Stub: []string{"slog sink: capturing handler", "net/http connection: simulated connection", "handlers and middleware that panic on script"},
@@ -163,13 +163,21 @@ func runC15(src sim.Source, o Opts) *Result {
 		Method string
 		Path   string
 		Kind   model.Kind
+		Sv     model.Served // what the reference dispatcher says about the site's request
+	}
+	// the slash-toggled form of the request: with ignore-trailing-slash in force it is served by a route through the
+	// trailing-slash machinery, with the parameters of the adjusted match
+	toggled := path + "/"
+	if strings.HasSuffix(path, "/") && len(path) > 1 {
+		toggled = path[:len(path)-1]
 	}
 	sites := []site{
-		{"route-handler", "GET", path, model.KRoute},
-		{"route-middleware", "GET", path, model.KRoute},
-		{"no-route-handler", "GET", "/zz/none/zz", model.KNoRoute},
-		{"no-method-handler", "PURGE", path, model.KNoMethod},
-		{"options-handler", "OPTIONS", path, model.KOptions},
+		{Name: "route-handler", Method: "GET", Path: path, Kind: model.KRoute},
+		{Name: "route-middleware", Method: "GET", Path: path, Kind: model.KRoute},
+		{Name: "route-handler-via-ignored-slash", Method: "GET", Path: toggled, Kind: model.KRoute},
+		{Name: "no-route-handler", Method: "GET", Path: "/zz/none/zz", Kind: model.KNoRoute},
+		{Name: "no-method-handler", Method: "PURGE", Path: path, Kind: model.KNoMethod},
+		{Name: "options-handler", Method: "OPTIONS", Path: path, Kind: model.KOptions},
 	}
 	progress := []string{"nothing", "header", "partial", "failed-write"}
 	{
@@ -179,7 +187,8 @@ func runC15(src sim.Source, o Opts) *Result {
 		for _, st := range sites {
 			sv := set.Serve(mcfg, st.Method, "sim.invalid", st.Path, st.Path, model.MatchOpts{})
 			amb := set.Serve(mcfg, st.Method, "sim.invalid", st.Path, st.Path, model.MatchOpts{AllowLeadingSlashCapture: true})
-			if sv.Kind == st.Kind && amb.Kind == st.Kind {
+			if sv.Kind == st.Kind && amb.Kind == st.Kind && fmtMatch(sv.Match) == fmtMatch(amb.Match) {
+				st.Sv = sv
 				ok = append(ok, st)
 			} else {
 				res.inc("site_skipped_" + st.Name)
@@ -325,8 +334,18 @@ func runC15(src sim.Source, o Opts) *Result {
 					}
 					wantRoute := map[model.Kind]string{model.KNoRoute: "NoRouteHandler", model.KNoMethod: "NoMethodHandler", model.KOptions: "OptionsHandler"}[st.Kind]
 					if st.Kind == model.KRoute {
-						wantRoute = wantMatch.Route.Pattern
-						for _, p := range wantMatch.Params {
+						wantRoute = st.Sv.Route.Pattern
+						declared := map[string]bool{}
+						for _, p := range st.Sv.Params {
+							declared[p.Key] = true
+						}
+						for k := range rec.Attrs {
+							if name, ok := strings.CutPrefix(k, "params."); ok && name != "#" && !declared[name] {
+								res.fail("C15/log-record", "%s: the record names parameter %q, which route %s does not declare (record: %v)", where, name, wantRoute, rec.Attrs)
+								return res
+							}
+						}
+						for _, p := range st.Sv.Params {
 							if rec.Attrs["params."+p.Key] != p.Value {
 								res.fail("C15/log-record", "%s: the record lacks parameter %s=%s (record: %v)", where, p.Key, p.Value, rec.Attrs)
 								return res
